@@ -66,6 +66,66 @@ def merged_ok(combo, got) -> bool:
     return pos == len(got)
 
 
+def helper_inert_oracle(ck, rng) -> int:
+    """whatever sequence of add_class / remove_class / add_style / attrs.update produced an attribute, what is written is
+    inert: an HTML parser sees exactly the tag's own attribute names (nothing injected, nothing swallowed), on one line"""
+    from html.parser import HTMLParser
+    from htmltools import HTML, Tag
+    n = 0
+    hostile = ['x"onmouseover="alert(1)', "a'b", "p>q", "r<s", "t&u", "v&quot;w", 'y" z="1', "k\nl", "m=n"]
+    bases = [("HTML class", lambda: Tag("div", class_=HTML("base"))), ("plain class", lambda: Tag("div", class_="base")),
+             ("merged class", lambda: Tag("div", {"class": "p1"}, class_=HTML("h1"))), ("no class", lambda: Tag("div", id="i"))]
+
+    class P(HTMLParser):
+        def __init__(self):
+            super().__init__(convert_charrefs=True)
+            self.starts = []
+
+        def handle_starttag(self, tag, attrs):
+            self.starts.append((tag, attrs))
+
+        def handle_startendtag(self, tag, attrs):
+            self.starts.append((tag, attrs))
+
+    for bl, mk in bases:
+        for tok in hostile:
+            if any(c.isspace() for c in tok) and tok != "k\nl":
+                pass
+            for seq in range(6):
+                n += 1
+                ck.holds_checked += 1
+                t = mk()
+                steps = []
+                try:
+                    if seq == 0:
+                        t.add_class(tok); steps.append(f"add_class({tok!r})")
+                    elif seq == 1:
+                        t.add_class(tok); t.add_class("tmp"); t.remove_class("tmp"); steps += [f"add_class({tok!r})", "add_class('tmp')", "remove_class('tmp')"]
+                    elif seq == 2:
+                        t.add_class(tok, prepend=True); t.remove_class("base"); steps += [f"add_class({tok!r}, prepend=True)", "remove_class('base')"]
+                    elif seq == 3:
+                        t.add_class("keep"); t.add_class(tok); t.remove_class(tok); t.add_class(tok); steps += ["add_class('keep')", f"add_class({tok!r})", f"remove_class({tok!r})", f"add_class({tok!r})"]
+                    elif seq == 4:
+                        t.add_style(tok.replace("\n", " ") + ";"); t.add_class(tok); t.remove_class("zz"); steps += [f"add_style({tok!r} + ';')", f"add_class({tok!r})", "remove_class('zz')"]
+                    else:
+                        t.attrs.update({"class": tok}); t.add_class(HTML("hh")); t.remove_class("hh"); steps += [f"attrs.update(class={tok!r})", "add_class(HTML('hh'))", "remove_class('hh')"]
+                    out = t.get_html_string()
+                except Exception as e:  # noqa: BLE001
+                    ck.py_violation(f"helper_inert {bl} {tok!r} seq{seq}", f"raised {type(e).__name__}: {e}", f"{steps} raised", py="; ".join(steps))
+                    continue
+                p = P()
+                p.feed(out)
+                names = [k for k, _ in p.starts[0][1]] if p.starts else None
+                if len(p.starts) != 1 or p.starts[0][0] != "div" or names != list(t.attrs.keys()) or "\n" in out or "\r" in out:
+                    ck.py_violation(f"helper_inert {bl} {tok!r} seq{seq}", out[:400],
+                                    f"after {steps} on a tag with {bl} the opening tag is {out!r}: a parser sees elements {[s[0] for s in p.starts]} with attribute names {names}; "
+                                    f"the tag has exactly the attributes {list(t.attrs.keys())}",
+                                    py=f"t = <div with {bl}>; " + "; ".join("t." + x for x in steps) + "; t.get_html_string()")
+    ck.exhaustive_scopes.append({"scope": "attribute values stay inert through the class / style helpers: 4 starting tags x 9 hostile tokens x 6 helper sequences, read back with html.parser",
+                                 "n": n, "exhaustive": True})
+    return n
+
+
 def run(tier: str) -> int:
     from htmltools import HTML, Tag
     ck = core.Check(PID, tier, PROP_FILES)
@@ -96,6 +156,7 @@ def run(tier: str) -> int:
     for l, im in zip(lines, impl):
         ck.add(l, im, nontrivial=bool(special & set(l.split(" ", 2)[2].split("."))), tag="escape")
     ck.add_src(['html_escape', 'normalize_attr_value', 'TagAttrDict_update', 'TagAttrDict_setitem', 'add'])
+    ck.extra_cov["helper_inert_cases"] = helper_inert_oracle(ck, ck.rng)
     ck.correspond(holds=True)
     # stored attribute values in every tag position: marker substitution
     fns = gen.fn_catalogue(ck.proof.translate_info)
